@@ -5,7 +5,10 @@ from .hist import history  # noqa: F401  (resolved by the runner)
 PROPS = ["C05"]
 META = dict(
     module="scenarios.c05_lifecycle", level="model_checking",
-    bounds=dict(quick=hist.BOUNDS_QUICK, thorough=hist.BOUNDS_THOROUGH),
+    bounds=dict(quick=hist.BOUNDS_QUICK + "; two orders competing for one bar's liquidity (second one fill-or-kill); a "
+                "limit / stop-limit order over three bars under VolumeShareImpact with volumes {10, 100000} (partial "
+                "fill, then a liquid bar); inductive re-index step with a symbolic traversal counter",
+                thorough=hist.BOUNDS_THOROUGH),
     stubs=hist.BASE_STUBS, assumptions=hist.BASE_ASSUMPTIONS, outside=hist.BASE_OUTSIDE,
     required_covers=["end of history", "an order was accepted", "a request was rejected: place"],
 )
@@ -67,7 +70,10 @@ def extra_jobs(tier):
     n = 3 if tier == "quick" else 4
     # two orders competing for one bar's limited liquidity (fill-or-kill orders must still be closed by their first bar)
     ps = [dict(plan="pair", depth=2, bp=0, qp=2, liq="vsi", vols=["0", "10"], namounts=2, kinds=["limit"],
-               second="fok")]
+               second="fok"),
+          # a limit / stop-limit order filled in part on one bar and completed (never over-filled) on a later, liquid one
+          dict(plan="single", depth=3, bp=0, qp=2, liq="vsi", vols=["10", "100000"], namounts=1,
+               kinds=["limit", "stop_limit"])]
     return hist.jobs_for(PROPS, ps) + [
         Job("reindex inductive step %d orders" % n, "reindex", dict(norders=n), max_paths=2000000, split=200,
             validate_every=200, sample_every=400)]
